@@ -321,13 +321,15 @@ def specs(tier):
     Mo = "checks.c09"
     out = []
     kinds = ["move", "movetuple", "scale", "rotate"]
-    for n in (3, 4) if tier == "quick" else (3, 4, 5, 6):
+    for n in (3, 4, 5) if tier == "quick" else (3, 4, 5, 6, 7, 8):
         for k in kinds:
-            out.append(dict(module=Mo, scenario="TransformPoly", params=dict(n=n, kind=k, inverse=(n == 3 or tier != "quick"))))
-    for s in ["hollow", "two", "inv:two"] + (["framedot", "inv:hollow", "cw:penta", "ell"] if tier != "quick" else []):
+            out.append(dict(module=Mo, scenario="TransformPoly", params=dict(n=n, kind=k, inverse=(n <= 4 or tier != "quick")), time_budget=300 if tier == "quick" else 1800))
+    for s in ["hollow", "two", "inv:two", "framedot", "inv:hollow", "cw:penta", "ell"] + (["opring", "tinyring", "hollow2", "inv:framedot", "cw:ell", "youb", "inv:opring"] if tier != "quick" else []):
         for k in ("move", "scale"):
             out.append(dict(module=Mo, scenario="TransformShape", params=dict(shape=s, kind=k), time_budget=300 if tier == "quick" else 1800))
-    for s_, ang in [("hollow", 90), ("two", 180), ("penta", 270)] + ([("framedot", -90), ("inv:two", 90), ("opring", 180)] if tier != "quick" else []):
+    for s_, ang in [("hollow", 90), ("two", 180), ("penta", 270), ("framedot", -90), ("inv:two", 90), ("opring", 180)] + (
+        [("tinyring", 270), ("hollow2", -90), ("inv:framedot", 180), ("cw:ell", 90)] if tier != "quick" else []
+    ):
         for level in ("shape", "curve"):
             out.append(dict(module=Mo, scenario="RotateDegrees", params=dict(shape=s_, angle=ang, level=level)))
     return out
